@@ -340,7 +340,7 @@ func runLin(t vkit.TB, c *linCase, reps int) (overlaps int, released int) {
 	return
 }
 
-var linContentionOps = []string{"BlockingAdd", "BlockingAdd", "BlockingAdd", "Add", "Send", "Remove", "Remove", "Wait", "Len", "cancel"}
+var linContentionOps = []string{"BlockingAdd", "BlockingAdd", "BlockingAdd", "Add", "Send", "Remove", "Remove", "Remove", "Wait", "Len", "Len", "Close", "cancel"}
 
 var linOps = []string{"Add", "Add", "Send", "BlockingAdd", "BlockingAdd", "Remove", "Remove", "Wait", "Wait", "Receive", "Len", "DLen", "Close", "cancel"}
 
